@@ -143,6 +143,30 @@ CHECKS.update({
     ),
 })
 
+CHECKS.update({
+    "C14": (
+        "generated multilinear-by-construction integrands and single-edit broken variants; oracle = numerical (anti)linearity of the integrand in each argument, computed by the interpreter with explicit argument coefficients",
+        "Hypothesis-generated forms with 1-2 arguments (real and complex mode): integrands multilinear by construction and "
+        "variants broken by one edit (affine addend, non-zero argument-free list-tensor component, squares, nonlinear "
+        "functions, argument-dependent conditions/denominators, mismatching branches or argument sets, missing/spurious "
+        "conjugation). Whenever compute_form_data's arity check accepts, F(alpha u + beta u') = alpha F(u) + beta F(u') "
+        "(conjugated for the test function in complex mode) must hold numerically for every argument; programs that are "
+        "multilinear by construction must be accepted.",
+        "Trusts the interpreter; only ArityMismatch counts as a rejection.",
+        "4/C14",
+    ),
+    "C17": (
+        "generated interior-facet integrands with restrictions at arbitrary depth; oracle = own classification of the input DAG (must raise / must accept) + two-sided interpreter value before vs after + structural predicate on the result",
+        "Hypothesis-generated interior-facet integrands over H1/DG/Piola/Real coefficients, arguments, constants, x, n, "
+        "cell and facet geometry, gradients, variables, with restrictions wrapped at the root or drawn at arbitrary depth "
+        "(incl. invalid programs); with default restrictions checked and with pure propagation. Nested restrictions and "
+        "unrestricted side-dependent terminals must raise; otherwise the value on a pair of cells sharing a facet (H1 "
+        "traces equal, n- = -n+) must be unchanged and every side-dependent terminal must be wrapped exactly once.",
+        "Trusts the two-sided environment of DESIGN 2.3 and the harness' list of side-dependent terminal kinds.",
+        "4/C17",
+    ),
+})
+
 NOT_YET = {}
 
 
